@@ -10,12 +10,22 @@ PID = 'C01'
 IMPORTS = ['Base.OneHot', 'C01.Model', 'C01.Spec']
 CASE_TYPE = 'case'
 CHECK = 'check_case'
-RULE = ('exhaustive small scope (every sequence over alphabets 2-4 up to the tier length, batched; '
-        'motifs of length 1-3; every start in [-3, L+3]; every (start,end) in [-2,L+2]^2 for delete) '
-        'plus seeded random cases (L<=60, batch<=6, alphabets 2-6, string/tensor, shared/per-example '
-        'motifs, multisubstitute, randomize) plus a malformed stream; non-trivial = accepted call whose '
-        'output differs from the input, or rejected call with a position within 3 of a boundary')
-EXHAUSTIVE = {'quick': False, 'thorough': False}
+RULE = ('(1) small scope: alphabets 2-4, every sequence of length 1..5 (quick tier: length 1..4, at most 64 '
+        'sequences per (A,L) and 4 motifs per length), 16 sequences per call; every shared motif of length '
+        '1-3 (string/tensor alternating); every start in [-3, L+3] for substitute and insert; every '
+        '(start,end) in [-2,L+2]^2 for delete; alphabets 5-6: same positions, 64 sampled sequences per '
+        '(A,L) and 8 sampled motifs per length. (2) systematic positions with sampled content: '
+        'multisubstitute (sequence length 4..8) over every pair of motif lengths 1-3 x spacing in '
+        '{-1,0,1,2,L-1,L} x start in [-2,L+2] and the default start; randomize over every (start,end) in [-2,L+2]^2; per-example motifs at every '
+        'start. (3) seeded random cases (L<=60, batch<=6, alphabets 2-6, string/tensor, shared/per-example '
+        'motifs, 1-4 motifs with spacing lists): 60% drawn inside the scope with positions biased to the '
+        'boundaries (0, L-m, L), 40% from a boundary/malformed stream (positions within 4 of 0 and L, '
+        'all-zero / two-ones / value-2 columns, wrong alphabet, wrong motif batch, motif longer than X, bad '
+        'spacing lists). Non-trivial = accepted call whose output differs from the input, or rejected call '
+        'with a position within 3 of a boundary')
+# thorough: the enumeration (1) is complete for A<=4, L<=5, motif length<=3, shared motif, start in
+# [-3,L+3] (substitute, insert) and (start,end) in [-2,L+2]^2 (delete); everything else is sampled.
+EXHAUSTIVE = {'quick': False, 'thorough': True}
 TRUSTED = ['randomize: the drawn replacement is obtained by replaying numpy RandomState through utils.random_one_hot']
 ASSUMPTIONS = ['torch slicing/cat/clone implement list surgery (exercised by every case)',
                'aliasing ("caller tensors unmodified") is observed by the harness, not modelled']
@@ -40,11 +50,11 @@ def to_tensor(A, seqs):
     """seqs: list of lists of column codes -> float tensor (B, A, L)."""
     B = len(seqs)
     L = len(seqs[0]) if B else 0
-    X = torch.zeros(B, A, L, dtype=torch.float32)
-    for b, s in enumerate(seqs):
-        for p, k in enumerate(s):
-            X[b, :, p] = torch.tensor(column(A, k), dtype=torch.float32)
-    return X
+    if B == 0 or L == 0:
+        return torch.zeros(B, A, L, dtype=torch.float32)
+    cols = {}
+    data = [[cols.get(k) or cols.setdefault(k, column(A, k)) for k in s] for s in seqs]
+    return torch.tensor(data, dtype=torch.float32).permute(0, 2, 1).contiguous()
 
 
 def from_tensor(Y):
@@ -139,7 +149,9 @@ def coq_case(inp, out):
                                          C.zlist(sp), C.opt(inp['start']))
     else:
         Rs = draw_rands(inp)
-        rl = []
+        # the draw itself failed (span of non-positive length, probs of the wrong shape): hand the
+        # model a replacement outside the scope, on which it raises and the spec is silent
+        rl = ['(T 0%nat 0%nat [])'] if Rs is None else []
         if Rs is not None:
             for R in Rs:
                 rl.append('(T %s %s %s)' % (C.nat(R.shape[1]), C.nat(R.shape[2]),
@@ -165,7 +177,8 @@ def nontrivial(inp, out):
 
 
 def hist_key(inp, out):
-    return '%s/%s' % (inp['kind'], 'ok' if out['ok'] else 'raise')
+    src = 'corpus' if '_corpus' in inp else inp.get('_src', '?')
+    return '%s/%s/%s' % (src, inp['kind'], 'ok' if out['ok'] else 'raise')
 
 
 def all_seqs(A, L):
@@ -184,20 +197,35 @@ def rand_seq(rng, A, L, bad=False):
     return s
 
 
-def generate(tier, rng):
+def dyadic_probs(rng, pa):
+    """probabilities that are exactly representable in float32 and sum to 1 exactly"""
+    w = [1] * pa
+    for _i in range(16 - pa):
+        w[rng.randrange(pa)] += 1
+    return [[x / 16.0 for x in w]]
+
+
+def gen_small(tier, rng):
+    """(1) the property's small scope, enumerated"""
     quick = tier != 'thorough'
     maxL = 4 if quick else 5
-    # --- exhaustive small scope
-    for A in (2, 3, 4):
+    for A in (2, 3, 4, 5, 6):
+        full = A <= 4
         for L in range(1, maxL + 1):
-            seqs = all_seqs(A, L)
+            if full or A ** L <= 64:
+                seqs = all_seqs(A, L)
+            else:
+                seqs = [rand_seq(rng, A, L) for _ in range(64)]
             if quick and len(seqs) > 64:
                 seqs = rng.sample(seqs, 64)
+            if quick and not full:
+                seqs = seqs[:16]
             for X in batches(seqs, 16):
                 for m in (1, 2, 3):
                     motifs = all_seqs(A, m)
-                    if len(motifs) > 4:
-                        motifs = rng.sample(motifs, 4 if quick else 8)
+                    cap = 4 if quick else (None if full else 8)
+                    if cap and len(motifs) > cap:
+                        motifs = rng.sample(motifs, cap)
                     for mo in motifs:
                         for start in range(-3, L + 4):
                             form = 'str' if (start + m) % 2 else 'tensor'
@@ -207,59 +235,169 @@ def generate(tier, rng):
                 for s in range(-2, L + 3):
                     for e in range(-2, L + 3):
                         yield {'kind': 'del', 'A': A, 'X': X, 's': s, 'e': e}
-    # --- random, larger
-    n = 600 if quick else 6000
+
+
+def gen_positions(tier, rng):
+    """(2) every position of the remaining primitives / motif forms, on sampled content"""
+    quick = tier != 'thorough'
+    maxL = 4 if quick else 5
+    for A in (2, 3, 4) if quick else (2, 3, 4, 5, 6):
+        for L in range(1, maxL + 1):
+            B = rng.randint(2, 4)
+            X = [rand_seq(rng, A, L) for _ in range(B)]
+            # per-example motifs, every start
+            for m in (1, 2, 3):
+                for start in range(-3, L + 4):
+                    M = {'form': 'tensor', 'A': A, 'seqs': [rand_seq(rng, A, m) for _ in range(B)]}
+                    yield {'kind': 'sub', 'A': A, 'X': X, 'M': M, 'start': start}
+                    yield {'kind': 'ins', 'A': A, 'X': X, 'M': M, 'start': start}
+            # multisubstitute on a sequence of length L+3: two motifs, every pair of lengths, spacings at
+            # both ends of the admissible range, every start in [-2, L'+2] and the default; then three
+            # motifs tiling the sequence exactly, shifted one to the right, and centred
+            L2 = L + 3
+            X2 = [rand_seq(rng, A, L2) for _ in range(B)]
+            for m1 in (1, 2, 3):
+                for m2 in (1, 2, 3):
+                    for sp in sorted({-1, 0, 1, 2, L2 - 1, L2}):
+                        for start in list(range(-2, L2 + 3)) + [None]:
+                            if (sp < 0 or sp >= L2) and start not in (None, 0):
+                                continue    # rejected for the spacing alone, whatever the start
+                            Ms = []
+                            for m in (m1, m2):
+                                per = rng.random() < 0.3
+                                Ms.append({'form': 'tensor' if per or rng.random() < 0.5 else 'str', 'A': A,
+                                           'seqs': [rand_seq(rng, A, m) for _ in range(B if per else 1)]})
+                            yield {'kind': 'multi', 'A': A, 'X': X2, 'Ms': Ms,
+                                   'spacing': sp if rng.random() < 0.5 else [sp], 'start': start}
+            for start in (0, 1, None):
+                lens = [1, L2 - 2, 1]
+                Ms = [{'form': 'str', 'A': A, 'seqs': [rand_seq(rng, A, m)]} for m in lens]
+                yield {'kind': 'multi', 'A': A, 'X': X2, 'Ms': Ms, 'spacing': 0, 'start': start}
+            # randomize: every span
+            for s in range(-2, L + 3):
+                for e in range(-2, L + 3):
+                    yield {'kind': 'rand', 'A': A, 'X': X, 's': s, 'e': e, 'probs': dyadic_probs(rng, A),
+                           'n': rng.randint(1, 2), 'seed': rng.randint(0, 10 ** 6)}
+
+
+def edge(rng, lo, hi):
+    """a position in [lo, hi], the two ends twice as likely as the interior as a whole"""
+    r = rng.random()
+    if r < 0.3 or hi <= lo:
+        return lo
+    if r < 0.6:
+        return hi
+    return rng.randint(lo, hi)
+
+
+def gen_inside(rng, A, L, B, X, kind):
+    """a random call drawn inside the property's scope (expected to be accepted)"""
+    def motif(m):
+        Bm = rng.choice([1, 1, B])
+        form = 'str' if (Bm == 1 and rng.random() < 0.4) else 'tensor'
+        return {'form': form, 'A': A, 'seqs': [rand_seq(rng, A, m) for _i in range(Bm)]}
+    if kind == 'sub':
+        m = min(L, rng.choice([1, 1, 2, 3, 5, 8, L]))
+        start = None if rng.random() < 0.1 else edge(rng, 0, L - m)
+        return {'kind': 'sub', 'A': A, 'X': X, 'start': start, 'M': motif(m)}
+    if kind == 'ins':
+        m = rng.choice([1, 1, 2, 3, 5, 8, L, L + 1])
+        start = None if rng.random() < 0.1 else edge(rng, 0, L)
+        return {'kind': 'ins', 'A': A, 'X': X, 'start': start, 'M': motif(m)}
+    if kind == 'del':
+        s = edge(rng, 0, L - 1)
+        e = edge(rng, s + 1, L)
+        return {'kind': 'del', 'A': A, 'X': X, 's': s, 'e': e}
+    if kind == 'multi':
+        k = rng.randint(1, 4)
+        lens = [rng.choice([1, 1, 2, 3, 4]) for _j in range(k)]
+        while sum(lens) > L:
+            if len(lens) > 1:
+                lens.pop()
+            else:
+                lens[0] = L
+        k = len(lens)
+        room = L - sum(lens)
+        spacing = []
+        for _j in range(k - 1):
+            sp = min(rng.choice([0, 0, 1, 2, 3, room]), room, L - 1)
+            spacing.append(sp)
+            room -= sp
+        if k > 1 and len(set(spacing)) == 1 and rng.random() < 0.5:
+            spacing = spacing[0]
+        start = None if rng.random() < 0.25 else edge(rng, 0, room)
+        return {'kind': 'multi', 'A': A, 'X': X, 'Ms': [motif(m) for m in lens], 'spacing': spacing,
+                'start': start}
+    s = edge(rng, 0, L - 1)
+    e = edge(rng, s + 1, L)
+    return {'kind': 'rand', 'A': A, 'X': X, 's': s, 'e': e, 'probs': dyadic_probs(rng, A),
+            'n': rng.randint(1, 3), 'seed': rng.randint(0, 10 ** 6)}
+
+
+def gen_edgy(rng, A, L, B, kind):
+    """a random call from the boundary / malformed stream (mostly expected to be rejected)"""
+    bad = rng.random() < 0.2
+    X = [rand_seq(rng, A, L, bad and i == 0) for i in range(B)]
+    near = lambda: rng.choice([rng.randint(-3, 3), L + rng.randint(-4, 3), rng.randint(0, L)])
+    if kind in ('sub', 'ins'):
+        m = rng.choice([1, 1, 2, 3, 5, L, L + 1]) or 1
+        Bm = rng.choice([1, 1, B, B, rng.randint(1, 7)])
+        mA = A if rng.random() > 0.12 else rng.choice([2, 3, 4, 5, 6])
+        form = 'str' if (Bm == 1 and mA == A and rng.random() < 0.4) else 'tensor'
+        mbad = rng.random() < 0.15
+        seqs = [rand_seq(rng, mA, m, mbad and i == 0) for i in range(Bm)]
+        if form == 'str':
+            seqs = [[k if k >= -1 else -1 for k in seqs[0]]]
+        start = None if rng.random() < 0.1 else rng.choice([near(), L - m + rng.randint(-2, 2)])
+        return {'kind': kind, 'A': A, 'X': X, 'start': start,
+                'M': {'form': form, 'A': mA, 'seqs': seqs}}
+    if kind == 'del':
+        s = near()
+        e = rng.choice([near(), s + rng.randint(-1, 4)])
+        return {'kind': 'del', 'A': A, 'X': X, 's': s, 'e': e}
+    if kind == 'multi':
+        k = rng.randint(1, 4)
+        Ms = []
+        for _j in range(k):
+            m = rng.choice([1, 1, 2, 3, 4])
+            Bm = rng.choice([1, 1, 1, B])
+            form = 'str' if (Bm == 1 and rng.random() < 0.5) else 'tensor'
+            Ms.append({'form': form, 'A': A, 'seqs': [rand_seq(rng, A, m) for _i in range(Bm)]})
+        if rng.random() < 0.3:
+            spacing = rng.choice([0, 0, 1, 2, 3, -1, L, L - 1])
+        else:
+            spacing = [rng.choice([0, 0, 1, 2, 5, -1, L]) if rng.random() < 0.15 else rng.randint(0, 3)
+                       for _j in range(k - 1 if rng.random() > 0.05 else k)]
+        tot = sum(len(m['seqs'][0]) for m in Ms)
+        start = None if rng.random() < 0.25 else rng.choice([near(), L - tot - rng.randint(0, 6), 0])
+        return {'kind': 'multi', 'A': A, 'X': X, 'Ms': Ms, 'spacing': spacing, 'start': start}
+    s = near()
+    e = rng.choice([near(), s + rng.randint(-1, 5), L, L + 1])
+    pa = A if rng.random() > 0.1 else rng.choice([2, 3, 4, 5])
+    return {'kind': 'rand', 'A': A, 'X': X, 's': s, 'e': e, 'probs': dyadic_probs(rng, pa),
+            'n': rng.randint(1, 3), 'seed': rng.randint(0, 10 ** 6)}
+
+
+def gen_random(tier, rng):
+    """(3) random, larger: 60% inside the scope, 40% boundary / malformed"""
+    n = 1500 if tier != 'thorough' else 12000
     for _ in range(n):
         A = rng.choice([2, 3, 4, 4, 4, 5, 6])
         L = rng.choice([1, 2, 3, 5, 8, 13, 21, 34, 60])
         B = rng.randint(1, 6)
-        bad = rng.random() < 0.08
-        X = [rand_seq(rng, A, L, bad and i == 0) for i in range(B)]
         kind = rng.choice(['sub', 'ins', 'del', 'multi', 'multi', 'rand'])
-        near = lambda: rng.choice([rng.randint(-3, 3), L + rng.randint(-4, 3), rng.randint(0, L)])
-        if kind in ('sub', 'ins'):
-            m = rng.choice([1, 1, 2, 3, 5, L, L + 1]) or 1
-            Bm = rng.choice([1, 1, B, B, rng.randint(1, 7)])
-            mA = A if rng.random() > 0.05 else rng.choice([2, 3, 4, 5, 6])
-            form = 'str' if (Bm == 1 and mA == A and rng.random() < 0.4) else 'tensor'
-            mbad = rng.random() < 0.06
-            seqs = [rand_seq(rng, mA, m, mbad and i == 0) for i in range(Bm)]
-            if form == 'str':
-                seqs = [[k if k >= -1 else -1 for k in seqs[0]]]
-            start = None if rng.random() < 0.1 else rng.choice([near(), L - m + rng.randint(-2, 2)])
-            yield {'kind': kind, 'A': A, 'X': X, 'start': start,
-                   'M': {'form': form, 'A': mA, 'seqs': seqs}}
-        elif kind == 'del':
-            s = near()
-            e = rng.choice([near(), s + rng.randint(-1, 4)])
-            yield {'kind': 'del', 'A': A, 'X': X, 's': s, 'e': e}
-        elif kind == 'multi':
-            k = rng.randint(1, 4)
-            Ms = []
-            for _j in range(k):
-                m = rng.choice([1, 1, 2, 3, 4])
-                Bm = rng.choice([1, 1, 1, B])
-                form = 'str' if (Bm == 1 and rng.random() < 0.5) else 'tensor'
-                Ms.append({'form': form, 'A': A, 'seqs': [rand_seq(rng, A, m) for _i in range(Bm)]})
-            if rng.random() < 0.3:
-                spacing = rng.choice([0, 0, 1, 2, 3, -1, L, L - 1])
-            else:
-                spacing = [rng.choice([0, 0, 1, 2, 5, -1, L]) if rng.random() < 0.15 else rng.randint(0, 3)
-                           for _j in range(k - 1 if rng.random() > 0.05 else k)]
-            tot = sum(len(m['seqs'][0]) for m in Ms)
-            start = None if rng.random() < 0.25 else rng.choice([near(), L - tot - rng.randint(0, 6), 0])
-            yield {'kind': 'multi', 'A': A, 'X': X, 'Ms': Ms, 'spacing': spacing, 'start': start}
+        if rng.random() < 0.6:
+            X = [rand_seq(rng, A, L) for _i in range(B)]
+            yield gen_inside(rng, A, L, B, X, kind)
         else:
-            s = near()
-            e = rng.choice([near(), s + rng.randint(-1, 5), L, L - 1])
-            pa = A if rng.random() > 0.05 else rng.choice([2, 3, 4, 5])
-            # dyadic probabilities: exactly representable in float32, so they sum to 1 exactly
-            w = [1] * pa
-            for _i in range(16 - pa):
-                w[rng.randrange(pa)] += 1
-            probs = [[x / 16.0 for x in w]]
-            yield {'kind': 'rand', 'A': A, 'X': X, 's': s, 'e': e, 'probs': probs,
-                   'n': rng.randint(1, 3), 'seed': rng.randint(0, 10 ** 6)}
+            yield gen_edgy(rng, A, L, B, kind)
+
+
+def generate(tier, rng):
+    for src, g in (('small', gen_small), ('pos', gen_positions), ('random', gen_random)):
+        for inp in g(tier, rng):
+            inp['_src'] = src
+            yield inp
 
 
 def shrink(inp):
